@@ -1,4 +1,6 @@
 """Adapters that drive hio's real TCP endpoint classes and servers along behaviours of specs/tcp/Conn.tla."""
+import errno
+
 from . import core, fakesock
 
 KINDS = ("client", "clienttls", "remoter", "remotertls")
@@ -117,6 +119,20 @@ class Endpoint:
                     else:
                         self.ep.handshake()
                     self.f.hsplan = []
+                elif op == "again" and self.kind in ("client", "clienttls"):
+                    # Client.service() once more after a cut-off / aborted handshake; a new attempt to connect gets its
+                    # socket from a scripted socket module (the first attempt waits, the second is accepted)
+                    clienting = classes()[0]
+                    mod = fakesock.FakeSocketModule(ha=self.ep.ha)
+                    mod.tls = self.tls
+                    saved = clienting.socket
+                    clienting.socket = mod
+                    try:
+                        for res in (errno.EINPROGRESS, 0):
+                            mod.next_connect = res
+                            self.ep.service()
+                    finally:
+                        clienting.socket = saved
         except core.Hang:
             return "did not return"
         except Exception as ex:
